@@ -410,7 +410,7 @@ fn rayon_sampling(args: &Args, rep: &mut Report) {
     let reps = if t { 50 } else { 8 };
     for threads in [1usize, 2, 3, 4, 8, 16] {
         let pool = rayon_core::ThreadPoolBuilder::new().num_threads(threads).build().expect("pool");
-        for &(prefix, len) in &[(0usize, data.len()), (1, 1 << 20), (1024, (1 << 21) + 5), (0, 17 * 1024)] {
+        for &(prefix, len) in &[(0usize, data.len()), (1, 1 << 20), (1024, (1 << 21) + 5), (0, 17 * 1024), (0, (128 << 10) + 1500), (0, (1 << 20) + 2047), (0, (1 << 20) + (256 << 10) + (128 << 10) + 1536), (2048, (256 << 10) + 1025)] {
             let mut eh = blake3::Hasher::new();
             eh.update(&data[..prefix]);
             eh.update(&data[prefix..prefix + len]);
@@ -418,13 +418,17 @@ fn rayon_sampling(args: &Args, rep: &mut Report) {
             for _ in 0..reps {
                 rep.inc("evaluations");
                 rep.inc("rayon_pool_runs_sampled");
-                let got = pool.install(|| {
+                let got = vcommon::catch(|| pool.install(|| {
                     let mut h = blake3::Hasher::new();
                     h.update(&data[..prefix]);
                     h.update_rayon(&data[prefix..prefix + len]);
                     hasher_bytes(&h)
-                });
-                if got != exp {
+                }));
+                if let Err(m) = &got {
+                    record("update_rayon:panic", format!("update_rayon with {} threads on {}+{} bytes panics: {}", threads, prefix, len, m), json!({"property": "C08", "engine": "sched/rust", "subject": "update_rayon", "threads": threads, "prefix": prefix, "len": len, "check": "update_rayon:panic"}));
+                    break;
+                }
+                if got != Ok(exp.clone()) {
                     record("update_rayon:differs-from-update", format!("update_rayon with {} threads on {}+{} bytes differs from update", threads, prefix, len), json!({"property": "C08", "engine": "sched/rust", "subject": "update_rayon", "threads": threads, "prefix": prefix, "len": len, "check": "update_rayon:differs-from-update"}));
                 }
             }
@@ -439,10 +443,10 @@ fn rayon_sampling(args: &Args, rep: &mut Report) {
         for _ in 0..reps {
             rep.inc("evaluations");
             rep.inc("rayon_pool_runs_sampled");
-            let got = pool.install(|| {
+            let got = vcommon::catch(|| pool.install(|| {
                 let mut h = blake3::Hasher::new();
                 h.update_mmap_rayon(&file).map(|h| (*h.finalize().as_bytes(), h.count())).ok()
-            });
+            })).unwrap_or(None);
             if got != Some((want, data.len() as u64)) {
                 record("update_mmap_rayon:differs-from-update", format!("update_mmap_rayon with {} threads differs from update", threads), json!({"property": "C08", "engine": "sched/rust", "subject": "update_mmap_rayon", "threads": threads, "check": "update_mmap_rayon:differs-from-update"}));
             }
